@@ -57,6 +57,11 @@ func (v *Vue) evalInclude(ctx VueContext, node *html.Node, vars map[string]any, 
 	}
 	assignSeenAttrs(name, compDom)
 
+	// Registered shorthand tags work inside component files exactly as they do in the page
+	if err := v.resolveComponentTags(compDom); err != nil {
+		return nil, fmt.Errorf("error in %s (included from %s): %w", name, ctx.FormatTemplateChain(), err)
+	}
+
 	// Validate the :required list of a wrapping <template> up front, so that the error names the component.
 	// The wrapper itself is evaluated, once, together with the rest of the component below.
 	if len(compDom) > 0 && compDom[0].Type == html.ElementNode && compDom[0].Data == "template" && !helpers.HasAttr(compDom[0], "include") {
